@@ -14,7 +14,7 @@ from typing import Dict, List, Optional, Tuple
 import common
 import spec as S
 
-GEN_VERSION = "7"
+GEN_VERSION = "9"
 
 STRUM_DERIVES = ["EnumString", "Display", "AsRefStr", "IntoStaticStr", "VariantNames", "EnumIter", "EnumCount", "FromRepr",
                  "VariantArray", "EnumDiscriminants", "EnumIs", "EnumTryAs", "EnumMessage", "EnumProperty", "EnumTable",
@@ -52,11 +52,15 @@ class V:
         lines = []
         for d in self.docs:
             lines.append("    ///" + d)
+        if getattr(self, "attrs_after_raw", False):
+            for r in self.raw_attrs:
+                lines.append("    " + r)
         for a in self.attrs:
             if a:
                 lines.append("    #[strum(%s)]" % ", ".join(a))
-        for r in self.raw_attrs:
-            lines.append("    " + r)
+        if not getattr(self, "attrs_after_raw", False):
+            for r in self.raw_attrs:
+                lines.append("    " + r)
         body = self.name
         if self.kind == "tuple":
             fs = []
@@ -214,7 +218,8 @@ def family_strings(rng: random.Random, count: int, start: int) -> List[E]:
     """Family A: naming x kind x flags x enum options for the string derives."""
     out = []
     kinds = ["unit", "t0", "t1", "t2", "t3", "n0", "n1", "n2", "n3", "t1ref"]
-    namings = ["none", "ts", "ser1", "ser2_long_first", "ser2_long_last", "ser3_long_mid", "ser2_tie", "ser_ts", "split_attrs", "ts_placeholder", "ts_escaped_braces"]
+    namings = ["none", "ts", "ser1", "ser2_long_first", "ser2_long_last", "ser3_long_mid", "ser2_tie", "ser_ts", "split_attrs", "ts_placeholder", "ts_escaped_braces",
+               "ser3_LSM", "ser3_LMS", "ser3_SML", "ser3_MLS", "ser3_MSL", "ser_ts_casepair", "ser_ts_same"]
     vflags = ["", "", "", "aci", "aci_true", "aci_false", "disabled", "default", "transparent", "default_with"]
     prefixes = [None, None, "p_", "", "é·", "Pre Fix/"]
     for i in range(count):
@@ -282,6 +287,10 @@ def family_strings(rng: random.Random, count: int, start: int) -> List[E]:
                 metas.append("ascii_case_insensitive = false")
             elif flag == "disabled":
                 metas.append("disabled")
+                if (i + j) % 3 == 0 and not have_default and kind in ("t1", "n1"):
+                    # a disabled variant that is also marked default must not become the catch-all
+                    fields = [(fields[0][0], "Txt")]
+                    metas.append("default")
             # --- naming
             attrs: List[List[str]] = []
             sp = lambda k: uniq_spelling(alpha, eid, j, k)
@@ -297,6 +306,16 @@ def family_strings(rng: random.Random, count: int, start: int) -> List[E]:
                 metas += ["serialize = %s" % rstr(sp(0)), "serialize = %s" % rstr(sp(1) + "longest"), "serialize = %s" % rstr(sp(2))]
             elif naming == "ser2_tie":
                 metas += ["serialize = %s" % rstr(sp(0)), "serialize = %s" % rstr(sp(1))]
+            elif naming.startswith("ser3_") and naming != "ser3_long_mid":
+                # every order of a (S)hort, (M)edium and (L)ong serialize value
+                suffix = {"S": "", "M": "mid", "L": "muchlonger"}
+                metas += ["serialize = %s" % rstr(sp(q) + suffix[ch]) for q, ch in enumerate(naming[5:])]
+            elif naming == "ser_ts_casepair":
+                # serialize and to_string differ only in ASCII case
+                base_ = uniq_spelling("mixed", eid, j, 0)
+                metas += ["serialize = %s" % rstr(base_.lower()), "to_string = %s" % rstr(base_.upper())]
+            elif naming == "ser_ts_same":
+                metas += ["serialize = %s" % rstr(sp(0)), "to_string = %s" % rstr(sp(0))]
             elif naming == "ser_ts":
                 metas += ["serialize = %s" % rstr(sp(0) + "quite-long"), "to_string = %s" % rstr(sp(1))]
             elif naming == "split_attrs":
@@ -464,6 +483,12 @@ def family_iter(rng: random.Random, start: int, thorough: bool) -> List[E]:
                 v = V(["North", "SouthEast", "West2", "up_down", "Q", "HTTPGet", "Z9", "mid", "Last_", "Extra"][j])
                 if j in dis:
                     v.attrs = [["disabled"]]
+                    # other attributes before / after the strum attribute
+                    if (n + j) % 3 == 0:
+                        v.docs = [" documented, then disabled"]
+                    elif (n + j) % 3 == 1:
+                        v.raw_attrs = ["#[allow(dead_code)]"]
+                        v.attrs_after_raw = True
                 vs.append(v)
             derives = ["EnumIter", "EnumCount", "FromRepr", "VariantArray", "VariantNames", "EnumIs"]
             if n > 0:
@@ -588,6 +613,8 @@ def family_messages(rng: random.Random, start: int, count: int) -> List[E]:
         [['shared = "s"', 'shared2 = 1'], ['shared3 = true']],
         [['k = "v"', 'k2 = "v2"', 'k3 = 3', 'k4 = 4', 'k5 = true', 'k6 = false']],
         [['neg = -9223372036854775807', 'zero = 0']],
+        [['level = "top"', 'level = 3', 'level = true']],
+        [['lvl = 1'], ['lvl = "one"', 'other = false']],
     ]
     kinds = ["unit", "t1", "n2", "t0"]
     for i in range(count):
@@ -620,11 +647,17 @@ def family_messages(rng: random.Random, start: int, count: int) -> List[E]:
             for grp in prop_sets[(i * 2 + j) % len(prop_sets)]:
                 attrs.append(["props(%s)" % ", ".join(grp)])
             if (i + j) % 7 == 3:
-                attrs.append(["disabled"])
+                if (i + j) % 14 == 3:
+                    # `disabled` written before the other keys / attributes
+                    attrs = [["disabled"] + attrs[0]] + attrs[1:] if attrs else [["disabled"]]
+                elif (i + j) % 21 == 10:
+                    attrs.insert(0, ["disabled"])
+                else:
+                    attrs.append(["disabled"])
             v.attrs = attrs
             vs.append(v)
         eattrs = [["serialize_all = %s" % rstr(["snake_case", "UPPERCASE", "Train-Case"][i % 3])]] if i % 2 else []
-        out.append(E("Msg%04d" % eid, "messages", ["EnumMessage", "EnumProperty", "EnumString"], vs, attrs=eattrs))
+        out.append(E("Msg%04d" % eid, "messages", ["EnumMessage", "EnumProperty", "EnumString", "EnumCount", "EnumIter", "VariantNames", "FromRepr", "EnumIs"], vs, attrs=eattrs))
     return out
 
 
@@ -642,6 +675,8 @@ def family_discriminants(rng: random.Random, start: int) -> List[E]:
         ([["derive(EnumString, VariantNames, EnumCount, FromRepr, EnumIs)", "strum(serialize_all = \"snake_case\")"]], "pub"),
         ([["vis(pub(super))", "derive(EnumIter)"]], "pub(crate)"),
         ([["allow(dead_code)", "derive(IntoStaticStr, AsRefStr)", "strum(prefix = \"d_\")"]], "pub"),
+        ([["derive(Display, EnumString)", "strum(serialize_all = \"kebab-case\")", "strum(ascii_case_insensitive)"]], "pub"),
+        ([["derive(Display, EnumString, VariantNames)"], ["strum(serialize_all = \"SCREAMING_SNAKE_CASE\")"], ["strum(prefix = \"x/\")", "allow(dead_code)", "allow(unused)"]], "pub"),
     ]
     for ci, (dattrs, vis) in enumerate(configs):
         vs = base()
